@@ -35,7 +35,8 @@ ASSUMPTIONS = ["the reference evaluates the repo's own payoff code on a pristine
 TIERS = {
     "quick": {"worlds": 900, "wall": 500, "shrink_budget": 60,
               "required_probes": ["c17.run_completed", "c17.barrier_event_mixed", "c17.reuse_log_then_identity",
-                                  "c17.multilevel_run", "c17.pool_run", "c17.default_happened", "c17.default_mixed"]},
+                                  "c17.multilevel_run", "c17.pool_run", "c17.default_happened", "c17.default_mixed",
+                                  "c17.stochastic_time_grid"]},
     "thorough": {"worlds": 40000, "wall": 3300, "shrink_budget": 150,
                  "required_probes": ["c17.run_completed", "c17.barrier_event_mixed", "c17.reuse_log_then_identity",
                                      "c17.multilevel_run", "c17.pool_run", "c17.default_happened",
@@ -73,6 +74,7 @@ def generate(seed, tier="quick"):
                      "max_level": r.choice([1, 2])})
     vol = r.choice([0.03, 0.08, 0.15])
     return {"world_seed": seed, "product": spec, "x0": x0, "runs": runs, "vol": vol, "df": r.choice([1.0, 0.9]),
+            "drift": r.choice([0.0, 0.0, 0.08, -0.15]), "jitter": r.random() < 0.4,
             "pseed": r.randrange(10 ** 9), "jump_prob": r.choice([0.0, 0.3, 0.6]),
             "env": {"cpu_count": 4, "path_cost": 1e-5, "spawn_cost": 1e-4}}
 
@@ -128,13 +130,18 @@ def _paths(sc, count, m, log, rng):
             d, j = x0 * d, x0 * 0.5 * j
         return d, j
 
+    T = sc["product"]["maturity"]
     for _ in range(count):
+        times = None
+        if sc.get("jitter") and m > 2:
+            # stochastic time grid: same number of points, other interior times (as jump-time simulation produces)
+            times = [0.0] + sorted(rng.uniform(0.02 * T, 0.98 * T) for _ in range(m - 2)) + [T]
         if names:
             rows = [one() for _ in range(names)]
-            out.append(([r_[0].tolist() for r_ in rows], [r_[1].tolist() for r_ in rows]))
+            out.append(([r_[0].tolist() for r_ in rows], [r_[1].tolist() for r_ in rows], times))
         else:
             d, j = one()
-            out.append((d.tolist(), j.tolist()))
+            out.append((d.tolist(), j.tolist(), times))
     return out
 
 
@@ -188,6 +195,7 @@ def execute(wd, sc):
     for ri, run in enumerate(sc["runs"]):
         log = run["rep"] == "LOG"
         base = float(np.log(sc["x0"])) if log else sc["x0"]
+        drift = sc.get("drift", 0.0) * (1.0 if log else sc["x0"])
         n = run["n"]
         need = n if run["engine"] == "standard" else n * (1 + 2 * run["max_level"])
         wd.stub_paths = _paths(sc, need + 4, m, log, rng)
@@ -198,11 +206,11 @@ def execute(wd, sc):
         hist = "first-run" if ri == 0 else f"after-{sc['runs'][ri - 1]['rep']}-run"
         try:
             if run["engine"] == "standard":
-                proc = stubs.ScriptedPathProcess(base, times, log, df_value=df)
+                proc = stubs.ScriptedPathProcess(base, times, log, df_value=df, drift=drift)
                 cfg = ConfigurationStandard(mc_paths=n, nb_of_processes=run["nproc"])
                 stats = StdEngine(cfg, proc).price(product)
             else:
-                cp = stubs.ScriptedPathCoupling(base, times, log, df_value=df, names=spec.get("names"))
+                cp = stubs.ScriptedPathCoupling(base, times, log, df_value=df, names=spec.get("names"), drift=drift)
                 cfg = ConfigurationMultiLevel(initial_level=0, maximum_level=run["max_level"], initial_mc_paths=n,
                                               nb_of_processes=run["nproc"])
                 stats = MLEngine(cfg, cp).price_with_constant_mc_paths_and_level(product)
@@ -245,14 +253,17 @@ def execute(wd, sc):
                     pair = len(comps) == 2
                     d = diffs[ci] if pair else diffs
                     j = jmps[ci] if pair else jmps
-                    path = base + d + j
-                    val, pobj = _evaluate(pristine, run["rep"], times, path, j)
+                    ptimes = np.asarray(rec_["times"], dtype=float)  # the path's own time grid
+                    if sc.get("jitter") and not np.array_equal(ptimes, times):
+                        wd.probes["c17.stochastic_time_grid"] += 1
+                    path = base + drift * ptimes + d + j
+                    val, pobj = _evaluate(pristine, run["rep"], ptimes, path, j)
                     exp = float(val) * df
                     got = float(store[i])
                     ev = getattr(pobj.payoff, "barrier_event", None)
                     ev_pair.append(ev)
                     if kind in ("cds", "ntd"):
-                        uv = pobj.payoff_underlying.value(times, path, j)
+                        uv = pobj.payoff_underlying.value(ptimes, path, j)
                         if np.isfinite(uv):
                             wd.probes["c17.default_happened"] += 1
                         events.append(bool(np.isfinite(uv)))
@@ -268,14 +279,14 @@ def execute(wd, sc):
                             alt = copy.deepcopy(pristine)
                             alt.update(ProcessRepresentation.LOG if log else ProcessRepresentation.IDENDITY)
                             alt.payoff.barrier_event = True
-                            a_uv = alt.underlying_value(times, path, j)
+                            a_uv = alt.underlying_value(ptimes, path, j)
                             if np.isclose(got, float(alt(a_uv)) * df, rtol=1e-12, atol=1e-12):
                                 mech = "knock-flag-set-by-another-path"
                                 if comp == "fine" and len(comps) == 2:
                                     mech = "knock-flag-set-by-another-path(or the coarse path of the pair)"
                         if mech == "other" and not log:
                             with np.errstate(all="ignore"):
-                                a_val, _ = _evaluate(pristine, "LOG", times, path, j)
+                                a_val, _ = _evaluate(pristine, "LOG", ptimes, path, j)
                             if np.isclose(got, float(a_val) * df, rtol=1e-9) or (not np.isfinite(got)) or abs(got) > 1e30:
                                 mech = "logarithmic-representation-kept-from-an-earlier-run"
                         anylog = any(r_["rep"] == "LOG" for r_ in sc["runs"][:ri])
@@ -284,7 +295,7 @@ def execute(wd, sc):
                             {"run": ri, "level": lvl, "index": i, "stored": got, "fresh_copy": exp, "barrier_event_fresh": ev,
                              "payoff": cls, "rep": run["rep"], "path": path.tolist()})
                     # ---- monitors (pure identities, on the paths produced) -----------------------------
-                    _monitors(add, sc, pristine, run["rep"], times, path, j, base, log)
+                    _monitors(add, sc, pristine, run["rep"], ptimes, path, j, base, log)
                 if len(ev_pair) == 2 and ev_pair[0] is not None and ev_pair[0] != ev_pair[1]:
                     wd.probes["c17.fine_coarse_events_differ"] += 1
         if events and any(events) and not all(events):
